@@ -105,17 +105,39 @@ func formatFile(path string) error {
 	f.Close()
 
 	if *writeInPlace {
-		f, err := os.Create(path)
-		if err != nil {
-			return fmt.Errorf("Failed to open path to rewrite: %w", err)
-		}
-		_, err = f.Write(out.Bytes())
-		if err != nil {
+		if err := writeFileAtomic(path, out.Bytes()); err != nil {
 			return fmt.Errorf("Failed to write to output: %w", err)
 		}
-		f.Close()
 	} else {
 		fmt.Println(out.String())
 	}
 	return nil
+}
+
+// writeFileAtomic writes data to a temporary file next to path and renames it into
+// place, so path holds either its old or its new contents, never a partial write.
+func writeFileAtomic(path string, data []byte) error {
+	mode := os.FileMode(0o644)
+	if info, err := os.Stat(path); err == nil {
+		mode = info.Mode().Perm()
+	}
+	tmp, err := os.CreateTemp(filepath.Dir(path), "."+filepath.Base(path)+".tmp-*")
+	if err != nil {
+		return err
+	}
+	tmpName := tmp.Name()
+	_, err = tmp.Write(data)
+	if cerr := tmp.Close(); err == nil {
+		err = cerr
+	}
+	if err == nil {
+		err = os.Chmod(tmpName, mode)
+	}
+	if err == nil {
+		err = os.Rename(tmpName, path)
+	}
+	if err != nil {
+		os.Remove(tmpName)
+	}
+	return err
 }
